@@ -4,10 +4,17 @@ K: (i) the Lean predicate `Mesh.Consistent` is evaluated by the driver on a dump
        step of a generated history (parser -> generate_mesh -> Frame -> generate_mesh ...);
    (ii) the model's `ofLists` (the constructor pattern of every parser, theorem `ofLists_consistent`) is compared with
        the dictionaries the real constructors build from the same lists; `generateMesh` with the real generate_mesh
-       (shared with C11).
+       (shared with C11);
+   (iii) WKT: the model `Wkt.latticeWith` (Model/Wkt.lean; theorems Props/C09wkt.lean: `wkt_consistent`, `wkt_wf_consistent`,
+       `wkt_vertices_injective`, `wkt_edges_unique`, `wkt_cell_cycles` …) is run on the token pairs `float(v[1])`, `float(v[2])`
+       of every row (all pieces but the last, built by the harness independently of `read_vertexes`) and its three
+       dictionaries are compared exactly (keys, ids, coordinates, own lists, cycles, insertion order) with those of
+       `wkt.create_lattice`; on rows outside the theorems' hypotheses (empty row, one coordinate, consecutive repeats) the
+       exception type is compared instead.
 S: the same five clauses written independently in Python on the real objects (incl. object identity).
 """
 import os
+from fractions import Fraction
 import numpy as np
 
 import gen
@@ -66,6 +73,91 @@ def py_consistent(v, e, c):
     return bad
 
 
+# explicit WKT row sets (token strings, closing coordinate included).  What each exercises is said in `note`.
+WKT_ROWSETS = [
+    {"note": "two triangles sharing an edge; the second row starts at the vertex with id 0",
+     "rows": [[["0", "0"], ["10", "0"], ["10", "10"], ["0", "0"]], [["0", "0"], ["10", "10"], ["0", "10"], ["0", "0"]]]},
+    {"note": "fan of three polygons around the first vertex of the file (id 0), clockwise and counter-clockwise rows mixed, the shared "
+             "vertex first / in the middle / last-but-one of its rows",
+     "rows": [[["5", "5"], ["9", "5"], ["9", "9"], ["5", "9"], ["5", "5"]],
+              [["1", "9"], ["5", "9"], ["5", "5"], ["1", "5"], ["1", "9"]],
+              [["5", "1"], ["9", "1"], ["9", "5"], ["5", "5"], ["5", "1"]],
+              [["1", "5"], ["5", "5"], ["5", "1"], ["1", "1"], ["1", "5"]]]},
+    {"note": "non-integer coordinates, exponents, negative values, y beyond 1024; the same float spelled differently is one vertex",
+     "rows": [[["0.1", "0.2"], ["1e2", "2.5e1"], ["-3.75", "1030.5"], ["0.1", "0.2"]],
+              [["100.0", "25"], ["0.1", "0.2"], ["7.125", "-0.3"], ["1E2", "25.0"]],
+              [["-3.750", "1.0305e3"], ["0.10", "2e-1"], ["100", "25"], ["-3.75", "1030.5"]]]},
+    {"note": "-0.0 and 0.0 are one vertex; full-precision decimals whose flip is rounded",
+     "rows": [[["-0.0", "0"], ["3.3333333333333335", "0.1"], ["2.718281828459045", "3.141592653589793"], ["0", "-0.0"]],
+              [["0.0", "0.0"], ["2.718281828459045", "3.141592653589793"], ["-1.1", "2.2"], ["0", "0"]]]},
+    {"note": "rows that are not closed: the last coordinate is dropped whatever it is",
+     "rows": [[["0", "0"], ["4", "0"], ["4", "4"], ["0", "4"]], [["4", "0"], ["8", "0"], ["8", "4"], ["4", "4"], ["99", "99"]]]},
+    {"note": "a row with two coordinates (closing edge is the reverse of the first: not created again); a triangle on it",
+     "rows": [[["1", "1"], ["2", "2"], ["1", "1"]], [["2", "2"], ["1", "1"], ["3", "0"], ["2", "2"]]]},
+    {"note": "edge de-duplication in both directions: second polygon runs along the shared edges in the same direction as the first",
+     "rows": [[["0", "0"], ["4", "0"], ["4", "4"], ["0", "4"], ["0", "0"]], [["0", "0"], ["4", "0"], ["4", "4"], ["8", "2"], ["0", "0"]],
+              [["4", "4"], ["4", "0"], ["8", "2"], ["4", "4"]]]},
+    {"note": "one coordinate: SmallEdge asserts (edge from a vertex to itself)", "rows": [[["1", "2"], ["1", "2"]]]},
+    {"note": "no coordinate left after dropping the last piece: Cell with no vertices", "rows": [[["1", "2"]]]},
+    {"note": "consecutive repeated coordinate (spelled differently) after a good row",
+     "rows": [[["0", "0"], ["4", "0"], ["4", "4"], ["0", "0"]], [["4", "4"], ["10", "0"], ["1e1", "0.0"], ["8", "8"], ["4", "4"]]]},
+    {"note": "first and last-but-one coordinate equal (closing pair joins a vertex to itself)",
+     "rows": [[["0", "0"], ["4", "0"], ["4", "4"], ["0", "0"], ["0", "0"]]]},
+]
+
+
+def wkt_tokens(case, rng):
+    """per row the coordinate tokens (x string, y string), closing coordinate included"""
+    kind = case.get("wkt", "voronoi")
+    if kind == "rows":
+        return [[(str(p[0]), str(p[1])) for p in r] for r in case["rows"]]
+    if kind == "voronoi":
+        topo = gen.voronoi_topo(rng, case["sites"], "random")
+        if topo is None:
+            return None
+        tok = [(f"{round(float(p.real) * 500, 3)}", f"{round(float(p.imag) * 500, 3)}") for p in topo.J]
+        return [[tok[j] for j in cyc] + [tok[cyc[0]]] for cyc in topo.cells]
+    # "grid": jittered quadrilateral grid, quads split into triangles at random, every polygon in a random sense and starting
+    # at a random corner, rows in random order; coordinates formatted once per grid point
+    nx, ny, fmt = case["nx"], case["ny"], case["fmt"]
+    def f(v):
+        if fmt == "int":
+            return str(int(round(v)))
+        if fmt == "dec3":
+            return f"{round(v, 3)}"
+        if fmt == "dyadic":
+            return repr(round(v * 64) / 64)
+        if fmt == "exp":
+            return f"{v:.6e}"
+        return repr(float(v))
+    off = (-300.0, 900.0) if case.get("shift") else (50.0, 50.0)
+    P = {}
+    for i in range(nx + 1):
+        for j in range(ny + 1):
+            jx, jy = (rng.random(2) - 0.5) * 12
+            P[i, j] = (f(off[0] + 40 * i + jx), f(off[1] + 40 * j + jy))
+    polys = []
+    for i in range(nx):
+        for j in range(ny):
+            q = [(i, j), (i + 1, j), (i + 1, j + 1), (i, j + 1)]
+            u = rng.random()
+            if u < 0.25:
+                polys += [[q[0], q[1], q[2]], [q[0], q[2], q[3]]]
+            elif u < 0.5:
+                polys += [[q[0], q[1], q[3]], [q[1], q[2], q[3]]]
+            else:
+                polys.append(q)
+    out = []
+    for k in rng.permutation(len(polys)):
+        pl = polys[int(k)]
+        if rng.random() < 0.5:
+            pl = pl[::-1]
+        r = int(rng.integers(len(pl)))
+        pl = pl[r:] + pl[:r]
+        out.append([P[a] for a in pl] + [P[pl[0]]])
+    return out
+
+
 def start_mesh(ck, case):
     rng = np.random.default_rng(case["seed"])
     t = case["type"]
@@ -83,14 +175,34 @@ def start_mesh(ck, case):
         el = impl.quiet(ftess.create_lattice_elements, centers, max_distance=case.get("maxd", 75))
         return impl.quiet(ftess.create_lattice, *el), None
     if t == "wkt":
-        topo = gen.voronoi_topo(rng, case["sites"], "random")
-        if topo is None:
+        toks = wkt_tokens(case, rng)
+        if toks is None:
             return None, None
-        rows = []
-        for cyc in topo.cells:
-            pts = [topo.J[j] for j in cyc] + [topo.J[cyc[0]]]
-            rows.append("POLYGON ((" + ", ".join(f"{round(float(p.real) * 500, 3)} {round(float(p.imag) * 500, 3)}" for p in pts) + "))")
-        return impl.quiet(fwkt.create_lattice, rows), None
+        rows = ["POLYGON ((" + ", ".join(f"{xs} {ys}" for xs, ys in r) + "))" for r in toks]
+        # what the code iterates over: every piece but the last; `1024 - y` is one IEEE subtraction (trusted): tokens whose
+        # floating difference is not the exact one travel with their rounded value
+        req = {"op": "wkt_lattice", "rows": [[[rat(float(xs)), rat(float(ys))] for xs, ys in r[:-1]] for r in toks], "flip": []}
+        seen = set()
+        for r in toks:
+            for xs, ys in r[:-1]:
+                x, y = float(xs), float(ys)
+                if not (np.isfinite(x) and np.isfinite(y)):
+                    return None, None
+                if Fraction(1024 - y) != 1024 - Fraction(y) and y not in seen:
+                    seen.add(y)
+                    req["flip"].append([rat(y), rat(1024 - y)])
+        ck.count("wkt_tokens_with_rounded_flip", len(seen))
+        info = {"wkt_req": req, "err": None,
+                "repeats": any(len({(float(xs), 1024 - float(ys)) for xs, ys in r[:-1]}) != len(r[:-1]) for r in toks)}
+        try:
+            dicts = impl.quiet(fwkt.create_lattice, rows)
+        except Exception as ex:
+            # the model knows AssertionError (SmallEdge) and FloatingPointError (empty Cell); whatever was raised is compared
+            # with the model's verdict for these rows (a property failure when the rows are well-formed)
+            info["err"] = type(ex).__name__
+            return None, info
+        info["border"] = [int(k) for k, x in dicts[2].items() if x.is_border]
+        return dicts, info
     topo = gen.voronoi_topo(rng, case["sites"], case["kind"])
     if topo is None or topo.ncells() < 2:
         return None, None
@@ -116,7 +228,10 @@ def run(ck):
     ck.rule = ("histories: a parser (constructors on generated tissues / Surface Evolver dump / skeleton image / tessellation / "
                "WKT) followed by a random sequence of generate_mesh(ne in 2..12, replace on/off) and Frame constructions; after "
                "every step the real dictionaries are dumped and the consistency predicate is evaluated both by the Lean driver and "
-               "by an independent Python transcription. Non-trivial = a history with at least one editing step; distinct = parameters")
+               "by an independent Python transcription; WKT inputs (Voronoi tissues rounded to 3 decimals, jittered grids of "
+               "quadrilaterals/triangles in random sense and rotation with integer/decimal/dyadic/exponent/full-precision tokens, "
+               "hand-written row sets with shared vertices, the id-0 vertex, unclosed and degenerate rows) are also sent as token "
+               "pairs to the model of wkt.create_lattice and the dictionaries compared exactly. Non-trivial = a history with at least one editing step; distinct = parameters")
     ck.assumptions = ["CPython runs __del__ as soon as the last reference goes (the harness keeps no second reference)",
                       "object identity is evaluated on the real objects by the dumper and handed to the model as flags"]
     if ck.replaying:
@@ -141,11 +256,27 @@ def run(ck):
             cases.append({"type": "tess", "seed": int(ck.rng.integers(1 << 30)), "n": int(ck.rng.integers(12, 60)), "ring": bool(i % 2),
                           "maxd": [75, 40, 1e9][i % 3], "steps": [["frame"], ["genmesh", 3, True]]})
             cases.append({"type": "wkt", "seed": int(ck.rng.integers(1 << 30)), "sites": int(ck.rng.integers(10, 25)), "steps": [["genmesh", 4, False]]})
+        for rs in WKT_ROWSETS:
+            cases.append({"type": "wkt", "wkt": "rows", "seed": 0, "rows": rs["rows"], "steps": [["frame"]]})
+        for i in range(5 if ck.tier == "quick" else 30):
+            cases.append({"type": "wkt", "wkt": "grid", "seed": int(ck.rng.integers(1 << 30)), "nx": int(ck.rng.integers(1, 6)),
+                          "ny": int(ck.rng.integers(1, 5)), "fmt": ["int", "dec3", "repr", "dyadic", "exp"][i % 5], "shift": bool((i // 5) % 2),
+                          "steps": [["genmesh", int(ck.rng.integers(2, 7)), False], ["frame"]] if i % 2 else [["frame"]]})
     reqs, pending = [], []
     keep = []
     def one(case):
         dicts, lists = start_mesh(ck, case)
+        wk = None
+        if lists is not None and "wkt_req" in lists:
+            wk, lists = lists, None
         if dicts is None:
+            if wk is not None:
+                # create_lattice raised: compared with the model's verdict below
+                reqs.append(wk["wkt_req"])
+                pending.append(("wkt", case, None, wk))
+                ck.count("wkt_raised_" + wk["err"])
+                ck.case(case, nontrivial=False)
+                return
             ck.count("rejected")
             return
         v, e, c = dicts
@@ -155,12 +286,17 @@ def run(ck):
         def snapshot(label):
             bad = py_consistent(v, e, c)
             if bad:
-                sig = None
+                # a WKT ring that repeats a coordinate (touches itself) is taken over as a cell repeating a vertex
+                sig = "wkt-row-repeats-a-coordinate" if (wk is not None and wk["repeats"]) else None
                 ck.fail(f"mesh consistent after {label}", "; ".join(bad[:3]), dict(case, upto=list(hist)), signature=sig)
             reqs.append({"op": "consistent", "mesh": mesh_json(v, e, c)})
             pending.append(("cons", dict(case, upto=list(hist)), not bad, None))
             ck.count("dumps")
         snapshot("parsing")
+        if wk is not None:
+            reqs.append(wk["wkt_req"])
+            pending.append(("wkt", case, mesh_json(v, e, c), wk))
+            ck.count("wkt_" + case.get("wkt", "voronoi"))
         if lists is not None:
             reqs.append(dict(lists, op="of_lists"))
             pending.append(("oflists", case, mesh_json(v, e, c), None))
@@ -193,6 +329,30 @@ def run(ck):
                 ck.disagree("Consistent", f"Lean {resp['ok']} {resp['failing']} vs Python {a}", case)
             elif not resp["ok"]:
                 pass  # already reported by the Python oracle with the failing clause
+        elif kind == "wkt":
+            wk = b
+            if resp["wf"] and (resp["error"] is not None or not resp["consistent"]):
+                ck.disagree("wkt_wf_consistent vs evaluation of the model", f"wf rows but {resp['error']} {resp.get('failing')}", case)
+            if resp["nodup"] and resp["error"] is None and not resp["consistent"]:
+                ck.disagree("wkt_consistent vs evaluation of the model", str(resp.get("failing")), case)
+            if resp["error"] != wk["err"]:
+                if resp["wf"]:
+                    ck.fail("wkt.create_lattice completes on well-formed rows", f"raised {wk['err']}", case)
+                else:
+                    ck.disagree("wkt.create_lattice: exception", f"Lean {resp['error']} vs Python {wk['err']}", case)
+            elif resp["error"] is None:
+                def normw(m):
+                    return {"v": [[r[0], r[1], unrat(r[2]), unrat(r[3]), list(r[4]), list(r[5])] for r in m["v"]],
+                            "e": [list(r[:5]) for r in m["e"]], "c": [[r[0], r[1], list(r[2]), r[3]] for r in m["c"]]}
+                want, got = normw(a), normw(resp["mesh"])
+                for part, name in (("v", "vertices"), ("e", "edges"), ("c", "cells")):
+                    if want[part] != got[part]:
+                        diff = next((f"Python {x} vs Lean {y}" for x, y in zip(want[part], got[part]) if x != y),
+                                    f"Python has {len(want[part])} entries, Lean {len(got[part])}")
+                        ck.disagree(f"wkt.create_lattice: {name} dictionary", diff[:300], case)
+                        break
+                if resp["border"] != wk["border"]:
+                    ck.disagree("wkt.create_lattice: is_border", f"Python truthy for {wk['border']}", case)
         else:
             want = a
             got = resp["mesh"]
